@@ -36,6 +36,7 @@ LEVEL_TEXT = (
     "a selection only defined on the guarded rows (floor division); calculations may call a method of the value "
     "(int.bit_length); one expression object using the engine-specific function is applied in both iteration "
     "engines."
+    "  Leaves may hold a lazy stored payload (the public ChainRowIterable); after every prefix relation has been executed the root is executed once more and must still give the same rows."
 )
 LEVEL_NOTE = "trusts: reference evaluator ev_list; assumes the documented key-column precondition (P1) - cases violating it at a deduplication are discarded and counted"
 RULE = (
